@@ -2,6 +2,8 @@
 """Write /verif/seeded/<id>/meta.json from confirm.json/tests.json + the table below."""
 import json, os, glob
 D = {
+ "C01-gone_not_sticky": ("drops the `if self._gone: raise NoSuchProcess` guard at the end of _raise_if_pid_reused() (reverts fix 7ba203e)", "the process exits, psutil observes it gone (is_running() False / signal ESRCH / Popen whose child already died) and only then the PID is recycled: signals and setters reach the new owner"),
+ "C01-eq_unknown_ctime_wildcard": ("__eq__ compares by PID only when one creation time is unknown", "PID recycled by a process whose creation time cannot be read at re-validation (EACCES on /proc/pid/stat, zombie owner): is_running() judges (pid, None) equal, signals/setters reach the new owner"),
  "C02-hash_abs_ctime": ("__hash__ hashes (pid, absolute create time) instead of the identity tuple", "object A created, wall clock stepped (btime changes), boot_time() called, object B created for the same live process: equal objects hash differently"),
  "C02-stat_comm_partition": ("_parse_stat_file splits on the first ') ' instead of the last ')'", "a process whose name contains ') ' (fields shift, identity built from num_threads / itrealvalue): is_running() turns False after a thread starts; two incarnations named alike compare equal"),
  "C03-oneshot_cache_leak": ("Process.oneshot() loses its try/finally", "the process vanishes in the middle of as_dict()/process_iter(attrs) after stat/status were memoised: NoSuchProcess escapes with the caches left active, later getters return stale values instead of NoSuchProcess"),
